@@ -3,7 +3,7 @@
    EVERY arithmetic instance, in particular the float32/float64 one that is executed. *)
 Require Import Base.Prelude.
 From Coq Require Import QArith PrimFloat SpecFloat.
-Require Import C13.Arith C13.Model C13.Proofs.
+Require Import C13.Arith C13.Model C13.Proofs C13.ProofsFloat.
 Close Scope Q_scope.
 Open Scope Z_scope.
 
@@ -156,6 +156,69 @@ Proof.
     try apply alpha64_exact; try apply alpha32_exact.
 Qed.
 Print Assumptions C13_alpha_rule.
+
+(* ---------------- float32 level: the executed instance ---------------- *)
+Close Scope Q_scope.
+Open Scope Z_scope.
+
+(* band swap at the FLOAT instance: for ALL binary32 band values (finite, +-inf, NaN) the swapped index is the negated
+   index bit for bit, except that a zero result may carry the other sign (0.0 == -0.0): round-to-nearest-even ignores
+   the sign, float addition is commutative, the zero-denominator guard sees the identical sum *)
+Theorem C13_nd_float_antisym : forall a b : spec_float,
+  sf_eqv (nd_cell FloatArith b a) (SFopp (nd_cell FloatArith a b)).
+Proof. exact nd_float_antisym. Qed.
+Print Assumptions C13_nd_float_antisym.
+
+(* power-of-two scaling at the FLOAT instance, part 1 (unconditional): the float32 quotient of two numbers does not
+   change, bit for bit, when both are scaled by 2^k *)
+Theorem C13_float_div_scale : forall k n d : _,
+  SFdiv prec32 emax32 (sf_scale k n) (sf_scale k d) = SFdiv prec32 emax32 n d.
+Proof. intros k n d. apply SFdiv_scale. Qed.
+Print Assumptions C13_float_div_scale.
+
+(* part 2 (partial): the kernel is invariant when the float32 sum and difference of the scaled bands are the scaled
+   sum and difference — which is what "no overflow / underflow occurs" means — and widening a non-zero finite
+   float32 gives a non-zero double (premise about PrimFloat, not discharged) *)
+Theorem C13_nd_float_scale_partial : forall (a b : spec_float) (k : Z),
+  SFadd prec32 emax32 (sf_scale k a) (sf_scale k b) = sf_scale k (SFadd prec32 emax32 a b) ->
+  SFsub prec32 emax32 (sf_scale k a) (sf_scale k b) = sf_scale k (SFsub prec32 emax32 a b) ->
+  (forall s m e, PrimFloat.eqb (f64_of_b32 (S754_finite s m e)) (Z_to_float 0) = false) ->
+  nd_cell FloatArith (sf_scale k a) (sf_scale k b) = nd_cell FloatArith a b.
+Proof. intros a b k. apply nd_float_scale_cond. Qed.
+Print Assumptions C13_nd_float_scale_partial.
+
+(* UNCLAIMED full statement: scaling invariance from conditions on the values only (all of a, b, a+b, a-b and their
+   scalings are valid normal binary32 numbers or zero) *)
+Definition sf_normal_or_zero (x : spec_float) : Prop :=
+  match x with
+  | S754_zero _ => True
+  | S754_finite _ m _ => Zpos (digits2_pos m) = prec32
+  | _ => False
+  end.
+Definition C13_nd_float_scale_full_statement : Prop := forall (a b : spec_float) (k : Z),
+  valid_binary prec32 emax32 a = true -> valid_binary prec32 emax32 b = true ->
+  valid_binary prec32 emax32 (sf_scale k a) = true -> valid_binary prec32 emax32 (sf_scale k b) = true ->
+  sf_normal_or_zero a -> sf_normal_or_zero b ->
+  sf_normal_or_zero (SFadd prec32 emax32 a b) -> sf_normal_or_zero (SFsub prec32 emax32 a b) ->
+  valid_binary prec32 emax32 (sf_scale k (SFadd prec32 emax32 a b)) = true ->
+  valid_binary prec32 emax32 (sf_scale k (SFsub prec32 emax32 a b)) = true ->
+  nd_cell FloatArith (sf_scale k a) (sf_scale k b) = nd_cell FloatArith a b.
+
+(* concrete float32 evaluations: 3 and 1 (mantissas 3*2^22 and 2^23) swapped, scaled by 2^5 and by 2^-120 (no underflow:
+   the premises of the partial theorem hold there, checked by computation) *)
+Example C13_float_level_examples :
+  let a := b32_of_Z 3 in let b := b32_of_Z 1 in
+  nd_cell FloatArith a b = b32_of_f64 0.5%float /\
+  nd_cell FloatArith b a = SFopp (nd_cell FloatArith a b) /\
+  nd_cell FloatArith a a = S754_zero false /\ SFopp (nd_cell FloatArith a a) = S754_zero true /\
+  SFadd prec32 emax32 (sf_scale 5 a) (sf_scale 5 b) = sf_scale 5 (SFadd prec32 emax32 a b) /\
+  SFsub prec32 emax32 (sf_scale 5 a) (sf_scale 5 b) = sf_scale 5 (SFsub prec32 emax32 a b) /\
+  nd_cell FloatArith (sf_scale 5 a) (sf_scale 5 b) = nd_cell FloatArith a b /\
+  nd_cell FloatArith (sf_scale (-120) a) (sf_scale (-120) b) = nd_cell FloatArith a b /\
+  valid_binary prec32 emax32 (sf_scale (-120) a) = true.
+Proof. repeat split; vm_compute; reflexivity. Qed.
+
+Open Scope Q_scope.
 
 (* ---------------- non-vacuity and concrete evaluations ---------------- *)
 Definition q0 (x : Q) : Q := x.   (* any function will do as the abstract sqrt for these examples *)
